@@ -176,6 +176,18 @@ func senderSpace(first int) {
 					bw[i] = 1
 				}
 				sleepsFor(n, 0, func(s []int32) { play(seq, wire, bw, s, "bytewise") })
+				if depth <= 3 {
+					// empty Send calls (nil and zero-length) that only let time pass
+					ez := make([]int, 0, 2*n+1)
+					es := make([]int32, 0, 2*n+1)
+					ez = append(ez, 0)
+					es = append(es, 5)
+					for i := 0; i < n; i++ {
+						ez = append(ez, 1, 0)
+						es = append(es, int32(i%2), 1)
+					}
+					play(seq, wire, ez, es, "empty-chunks")
+				}
 				if depth <= 3 && n <= ctx.Pick(11, 13) {
 					// S2': depth 3 sequences, every partition, one time pattern
 					if depth == 3 {
